@@ -30,12 +30,8 @@ NOT_DECIDED = [
 
 # attribute flags the encoder emits without a version guard today, one
 # reason each (confirmed by reading)
-UNGUARDED_OK = {
-    'ALLOCATION_SIZE': 'alloc_size is a v6-only attribute that only the '
-                       'caller can set; no internal producer sets it, so '
-                       'emitting it on v3-5 is a caller error, not a codec '
-                       'disagreement',
-}
+UNGUARDED_OK: dict = {}      # (ALLOCATION_SIZE was exempted here until it was
+                             # re-triaged as finding F17 and repaired)
 
 SRV = 'sftp.SFTPServerHandler.'
 CLI = 'sftp.SFTPClientHandler.'
@@ -491,7 +487,7 @@ def r4(k: Kit) -> None:
         d_f = [(f, w) for f, w in d if f in eflags or f == '']
         e_main = [(f, w) for f, w in e if not f.endswith('(alt)') and
                   not f.startswith('?')]
-        rep.check(len(e_main) >= 6, 'C14.R4', key(enc, f'v{v} blocks found'),
+        rep.check(len(e_main) >= 5, 'C14.R4', key(enc, f'v{v} blocks found'),
                   f'{len(e_main)} encoder blocks extracted',
                   'attribute blocks no longer recognised', enc.loc(enc.node))
         ok = e_main == d_f
@@ -821,6 +817,18 @@ def requests(k: Kit) -> None:
             vbody = _canon(vr.replace('[.]', '').replace(' .', '')
                            .replace('.', ''))
             valts = _alternatives(vbody)
+            # before v6 a request body has no extension tail: the handler
+            # must insist on the end of the packet, like its siblings
+            if v < 6:
+                ends = [a for a in _alternatives(_canon(vr))]
+                rep.check(all(a.endswith('.') for a in ends), 'C14.R4',
+                          f'request {meth} → {handler} at v{v} ends the packet',
+                          f'v{v}: the handler checks for the end of the '
+                          'request',
+                          f'{handler} on an SFTPv{v} session parses `{vr}` '
+                          'and never calls check_end(): a request with '
+                          'trailing bytes is executed and answered normally '
+                          'instead of FX_BAD_MESSAGE', sf.loc(sf.node))
             for w in vwords:
                 if '?' in w:
                     pre = _canon(w.split('?')[0])
@@ -1008,6 +1016,133 @@ def r7(k: Kit) -> None:
               fi.loc(test))
 
 
+def r8(k: Kit) -> None:
+    """Status replies with extra fields; single-name replies."""
+    from ..absint import evaluate, NotEvaluable, Obj
+    rep = k.rep
+    idx = k.idx
+    rep.rule('C14.R8', 'an SFTPError subclass that appends fields to its '
+             'status reply does so only for versions that define its code '
+             '(evaluated for v3..v6: where the base class downgrades the '
+             'code to FX_FAILURE the reply carries no extra fields); the '
+             'client reads names[0] of a REALPATH / READLINK reply only '
+             'when exactly one name was returned')
+    base = idx.cls('sftp.SFTPError')
+    ends = {3: idx.const('sftp', 'FX_V3_END'), 4: idx.const('sftp', 'FX_V4_END'),
+            5: idx.const('sftp', 'FX_V5_END'), 6: idx.const('sftp', 'FX_V6_END')}
+    n = 0
+    for c in idx.all_subclasses(base):
+        fi = c.methods.get('encode')
+        if fi is None:
+            continue
+        # the subclass' status code: class-level constant passed to
+        # super().__init__(<CODE>, ...)
+        code = None
+        init = c.methods.get('__init__')
+        if init is not None:
+            for x in ast.walk(init.node):
+                if is_call(x, '__init__') and x.args:
+                    v = idx.fold(init.module, x.args[0])
+                    if isinstance(v, int):
+                        code = v
+        if code is None:
+            rep.error('C14.R8', key(fi, 'status code'), 'code not foldable')
+            continue
+        body = [st for st in fi.node.body if not (
+            isinstance(st, ast.Expr) and isinstance(st.value, ast.Constant))]
+        bad = None
+        for version in (3, 4, 5, 6):
+            n += 1
+
+            def on_call(nm, args, env):
+                if nm == 'super':
+                    return Obj('SUPER')
+                if nm == 'SUPER.encode':
+                    return b'<base>'
+                if nm in ('String', 'UInt32', 'Byte', 'Boolean', 'UInt64'):
+                    return b'<f>'
+                return Obj('x')
+            val = {'self.unknown_names': ('a', 'b')}
+            try:
+                o = evaluate(idx, fi.module, body, val, {'version': version},
+                             on_call)
+            except NotEvaluable as exc:
+                rep.error('C14.R8', key(fi, 'not-evaluable'), str(exc))
+                bad = 'error'
+                break
+            defined = code <= ends[version]
+            extra = isinstance(o.value, bytes) and o.value != b'<base>'
+            if o.kind != 'return' or not isinstance(o.value, bytes):
+                bad = bad or f'v{version}: result {o.value!r}'
+            elif extra and not defined:
+                bad = bad or (f'on v{version}, which does not define code '
+                              f'{code}, the reply is downgraded to '
+                              'FX_FAILURE but still carries the extra '
+                              'fields: the client finds unexpected data '
+                              'after the status and raises '
+                              'PacketDecodeError instead of an SFTPError')
+            elif defined and not extra:
+                bad = bad or f'on v{version} the extra fields are missing'
+        if bad == 'error':
+            continue
+        rep.check(bad is None, 'C14.R8', key(fi, 'extra status fields'),
+                  'extra fields exactly on the versions that define the code',
+                  str(bad), fi.loc(fi.node))
+    rep.floor('C14.R8', 'status subclasses with extra fields x versions',
+              n, 4)
+    m = 0
+    for qual in ('sftp.SFTPClient.realpath', 'sftp.SFTPClient.readlink'):
+        fi = k.func(qual)
+        g = k.cfg(fi)
+        for node in g.nodes:
+            for r in g.node_roots(node):
+                for sub in walk_shallow(r):
+                    if not (isinstance(sub, ast.Subscript) and
+                            dotted(sub.value) == 'names' and
+                            isinstance(sub.slice, ast.Constant) and
+                            sub.slice.value == 0):
+                        continue
+                    m += 1
+
+                    def one(x, node=node):
+                        a = x.ast
+                        if x.kind != 'atom' or x.id == node.id:
+                            return None
+                        if dotted(a) == 'names':
+                            return True
+                        if isinstance(a, ast.Compare) and len(a.ops) == 1 \
+                                and is_call(a.left, 'len') and \
+                                dotted(a.left.args[0]) == 'names' and \
+                                isinstance(a.comparators[0], ast.Constant):
+                            cst = a.comparators[0].value
+                            op = a.ops[0]
+                            if isinstance(op, ast.NotEq) and cst == 1:
+                                return False
+                            if isinstance(op, ast.Eq) and cst == 1:
+                                return True
+                            if isinstance(op, ast.Lt) and cst == 1:
+                                return False
+                            if isinstance(op, ast.GtE) and cst == 1:
+                                return True
+                            if isinstance(op, ast.Eq) and cst == 0:
+                                return False
+                            if isinstance(op, ast.Gt) and cst == 0:
+                                return True
+                        return None
+                    w = g.guarded_by(node.id, one)
+                    rep.check(w is None, 'C14.R8',
+                              key(fi, 'names[0] only if a name came back'),
+                              'names[0] read only past a test that at least '
+                              'one name was returned',
+                              'names[0] is read although the reply may hold '
+                              'no name (only "more than one" is rejected): '
+                              'a zero-name FXP_NAME reply raises IndexError '
+                              'out of the client call instead of '
+                              'SFTPBadMessage', k.loc(fi, node),
+                              g.describe_path(w) if w else None)
+    rep.floor('C14.R8', 'single-name reply reads', m, 2)
+
+
 def run(idx, rep, tier):
     k = Kit(idx, rep)
     rep.assumptions += NOT_DECIDED
@@ -1018,3 +1153,4 @@ def run(idx, rep, tier):
     r5(k)
     r6(k)
     r7(k)
+    r8(k)
